@@ -71,6 +71,20 @@ def main(argv=None):
     try:
         core.prepare_lean_dir()
         return run_check(ctx, mod, args)
+    except core.ImplementationFailure as e:
+        # the real code could not be set up for a case the property quantifies over: a verdict
+        fresh_line()
+        known = {k["key"]: k for k in core.known_findings(prop) if k.get("status") == "open"}
+        if e.key in known:
+            print("KNOWN-FINDING: property=%s %s" % (prop, known[e.key]["what"]))
+            print("OK %s tier=%s seed=%d (stopped at a known set-up failure)" % (prop, ctx.tier, ctx.seed))
+            return 0
+        path = core.write_replay(prop, 1, {"property": prop, "kind": "failing-input", "key": e.key, "what": e.what,
+                                           "seed": ctx.seed, "tier": ctx.tier, "input": e.replay})
+        print(e.what[:600])
+        print("VIOLATION property=%s replay=%s" % (prop, path))
+        print("FAIL %s tier=%s seed=%d (the code under test could not be set up)" % (prop, ctx.tier, ctx.seed))
+        return 1
     except core.MachineryError as e:
         fresh_line()
         print("MACHINERY-ERROR property=%s %s" % (prop, e))
